@@ -154,6 +154,31 @@ def gen_pair(rng, hostile=False):
     return {"kind": "pair", "callee": callee_src(c), "callee_name": name, "caller": src, "args": cargs, "ret": rt, "inline": inline, "hostile": hostile}
 
 
+def shadow_pair(rng, i):
+    bops = ["x and y", "x or y", "x ^ y", "x and not y", "not x or y", "not (x ^ y)"]
+    iops = ["x + y", "x ^ y", "x + 1", "y + 3", "(x & y) + 1", "x | y"]
+    ty = rng.choice(["bool", "Qint2"])
+    a_, ops = (("bool", bops) if ty == "bool" else ("Qint[2]", iops))
+    b1, b2 = rng.sample(ops, 2)
+    callee = f"def g(x: {a_}, y: {a_}) -> {a_}:\n    return {b1}\n"
+    inner = f"    def g(x: {a_}, y: {a_}) -> {a_}:\n        return {b2}\n"
+    comb = "^"
+    form = i % 4
+    if form == 0:  # inline def shadows the defs= entry
+        body, inline = inner + f"    return g(a, b) {comb} c\n", False
+    elif form == 1:  # defs= version called first, then shadowed
+        body, inline = f"    r = g(a, b)\n" + inner + f"    return r {comb} g(b, c)\n", False
+    elif form == 2:  # inline helper redefined between two calls
+        inner1 = f"    def g(x: {a_}, y: {a_}) -> {a_}:\n        return {b1}\n"
+        body, inline = inner1 + f"    r = g(a, b)\n" + inner + f"    return r {comb} g(a, c)\n", True
+    else:  # redefinition before any call
+        inner1 = f"    def g(x: {a_}, y: {a_}) -> {a_}:\n        return {b1}\n"
+        body, inline = inner1 + inner + f"    return g(c, a) {comb} b\n", True
+    src = f"def f(a: {a_}, b: {a_}, c: {a_}) -> {a_}:\n" + body
+    t = "bool" if ty == "bool" else "Qint2"
+    return {"kind": "pair", "callee": callee, "callee_name": "g", "caller": src, "args": [["a", t], ["b", t], ["c", t]], "ret": t, "inline": inline, "hostile": False, "shadow": True}
+
+
 def setup():
     from ..monitors import reach
 
@@ -167,6 +192,9 @@ def cases(tier, seed):
     n = 500 if tier == "quick" else 6000
     for i in range(n):
         yield gen_pair(rng, hostile=(i % 5 == 0))
+    # a callee name bound twice in the caller's scope: Python calls the latest binding
+    for i in range(16 if tier == "quick" else 160):
+        yield shadow_pair(rng, i)
     # oraclize
     for c in CALLEES:
         name, params, ret, body = c
